@@ -34,7 +34,7 @@ func init() {
 		Run:   run,
 		Setup: func(c *core.Ctx) { c.State = &aliasState{} },
 		Floors: func(t string) map[string]int64 {
-			return map[string]int64{"coord.nan_payload": 100, "coord.neg_zero": 100, "nested.depth>=2": 100, "empty.member": 100, "mixed_order.decoded": 1000, "path.len>=255": 50,
+			return map[string]int64{"coord.nan_payload": 100, "coord.neg_zero": 100, "nested.depth>=2": 100, "empty.member": 100, "mixed_order.decoded": 1000, "path.len>=255": 50, "path.len>=4097": 20,
 				"type.Point": 10, "type.MultiPoint": 10, "type.LineString": 10, "type.MultiLineString": 10, "type.Polygon": 10, "type.MultiPolygon": 10, "type.GeometryCollection": 10}
 		},
 	})
@@ -54,6 +54,9 @@ func GenGeom(r *gen.R, maxDepth int, coord func(*gen.R) float64) geom.Geom {
 	if r.Chance(0.04) {
 		// long paths (beyond any internal read-chunk size of the decoder: 255, 256, 257, 512, 1000+ points)
 		n := []int{255, 256, 257, 511, 512, 513, 1000, 2049}[r.Intn(8)]
+		if r.Chance(0.3) {
+			n = gen.BigLen(r) // up to 65537: beyond chunk sizes of 4096 / 64 KiB
+		}
 		pts := make([]geom.Point, n)
 		for i := range pts {
 			pts[i] = geom.Point{X: coord(r), Y: coord(r)}
@@ -185,6 +188,9 @@ func run(c *core.Ctx, idx int) {
 	c.Max("nesting_depth", float64(d))
 	if g.Len() >= 255 {
 		c.Count("path.len>=255")
+	}
+	if g.Len() >= 4097 {
+		c.Count("path.len>=4097")
 	}
 	special := coordStats(c, g)
 	empty := hasEmptyMember(g)
